@@ -127,6 +127,7 @@ theorem sumN_two_le (f : Thread → Nat) (l : List Thread) (i j : Nat) (a b : Th
 def pcTok : Pc → Nat
   | .soAvail _ | .gMake _ | .gFailSend | .gAct _ | .gAvail _ | .gInUse _
   | .pAct | .pSend _ | .cAct _ _ | .cSend _ _ _ => 1
+  | .soRelease _ ok => if ok then 1 else 0
   | .soUnlock _ ok _ => if ok then 1 else 0
   | _ => 0
 
@@ -140,23 +141,54 @@ def growP (t : Thread) : Nat :=
   | .sGrowAvail c old i => (c - old - i - 1).toNat
   | _ => 0
 
-/-- Slots a shrinking ScaleCapacity still has to take out of the channel. -/
+/-- Slots a shrinking ScaleCapacity still has to take out of the channel: the
+    capacity counter is already lowered by them. -/
 def closeP (t : Thread) : Nat :=
   match t.pc with
   | .sShrRecv c old i => (old - c - i).toNat
   | .sShrAct c old i | .sShrAvail c old i => (old - c - i - 1).toNat
   | _ => 0
 
-/-- 1 for a thread inside the shrink loop or about to close the channel. -/
-def closer (t : Thread) : Nat :=
+/-- 1 for a thread that holds the `scaling` semaphore: ScaleCapacity between
+    Acquire and the deferred Release, a scale-out between TryAcquire and Release. -/
+def holder (t : Thread) : Nat :=
   match t.pc with
-  | .sShrRecv _ _ _ | .sShrAct _ _ _ | .sShrAvail _ _ _ | .sClose => 1
+  | .soCap2 _ | .soAdd _ _ | .soAvail _ | .soRelease _ _
+  | .sLoad _ | .sCas _ _ | .sShrRecv _ _ _ | .sShrAct _ _ _ | .sShrAvail _ _ _
+  | .sGrowSend _ _ _ | .sGrowAvail _ _ _ | .sClose | .sUnlock => 1
   | _ => 0
+
+/-- 1 for a thread inside the shrink/grow loops of ScaleCapacity or about to close the channel. -/
+def inLoop (t : Thread) : Nat :=
+  match t.pc with
+  | .sShrRecv _ _ _ | .sShrAct _ _ _ | .sShrAvail _ _ _
+  | .sGrowSend _ _ _ | .sGrowAvail _ _ _ | .sClose => 1
+  | _ => 0
+
+/-- A ScaleCapacity(0) after its swap: the capacity counter is 0 and stays 0. -/
+def zeroing (t : Thread) : Prop :=
+  match t.pc with
+  | .sShrRecv c _ _ | .sShrAct c _ _ | .sShrAvail c _ _ => c = 0
+  | .sClose => True
+  | _ => False
 
 /-- 1 for a thread inside closeIdleResources. -/
 def sweepF (t : Thread) : Nat :=
   match t.pc with
   | .cLoad | .cRecv _ _ | .cAct _ _ | .cSend _ _ _ => 1
+  | _ => 0
+
+/-- 1 for a thread inside scaleInResources (the timer callback, not its goroutine). -/
+def tickF (t : Thread) : Nat :=
+  match t.pc with
+  | .tLock | .tCap | .tTodo | .tUnlock => 1
+  | _ => 0
+
+/-- 1 for a thread that holds `rp.lock`. -/
+def lockW (t : Thread) : Nat :=
+  match t.pc with
+  | .soCap _ | .soTry _ | .soCap2 _ | .soAdd _ _ | .soAvail _ | .soRelease _ _ | .soUnlock _ _ _
+  | .tCap | .tTodo | .tUnlock => 1
   | _ => 0
 
 /-- Contribution of a thread to the `inUse` counter. -/
@@ -168,6 +200,7 @@ def avW (t : Thread) : Int :=
   match t.pc with
   | .gMake _ | .gFailSend | .gAct _ | .gAvail _ | .cAct _ _ | .cSend _ _ _
   | .sShrAct _ _ _ | .sShrAvail _ _ _ => 1
+  | .soRelease _ ok => if ok then 1 else 0
   | .soUnlock _ ok _ => if ok then 1 else 0
   | .pInUse | .pAvail | .sGrowAvail _ _ _ => -1
   | _ => 0
@@ -176,16 +209,57 @@ def avW (t : Thread) : Int :=
 def A (maxCap : Nat) (t : Thread) : Prop :=
   match t.pc with
   | .soAdd _ c => 0 < c ∧ c < maxCap
-  | .sLoad c => 0 ≤ c ∧ c ≤ maxCap
+  | .sLock c | .sLoad c => 0 ≤ c ∧ c ≤ maxCap
   | .sCas c old => 0 ≤ c ∧ c ≤ maxCap ∧ old ≠ 0 ∧ old ≠ c
-  | .sShrRecv c old i | .sShrAct c old i | .sShrAvail c old i => c = 0 ∧ 0 ≤ i ∧ i < old - c
+  | .sShrRecv c old i | .sShrAct c old i | .sShrAvail c old i => 0 ≤ c ∧ 0 ≤ i ∧ i < old - c
   | .sGrowSend c old i | .sGrowAvail c old i => 0 < c ∧ 0 ≤ i ∧ i < c - old
   | _ => True
 
-/-- The hypothesis of the partial theorem, for one thread: a ScaleCapacity that
-    lowers the capacity is the one of Close (target 0, timers stopped). -/
-def AllowedT (p : Pool) (t : Thread) : Prop :=
-  ∀ c old, t.pc = .sCas c old → p.capacity = old → c < old → c = 0 ∧ p.idleOn = false
+/-- A Bool as 0/1. -/
+def b2n (b : Bool) : Nat := if b then 1 else 0
+@[simp] theorem b2n_true : b2n true = 1 := rfl
+@[simp] theorem b2n_false : b2n false = 0 := rfl
+
+theorem holder_le_one (t : Thread) : holder t ≤ 1 := by
+  obtain ⟨prog, pc, held, child⟩ := t
+  cases pc <;> simp [holder]
+
+theorem inLoop_le_holder (t : Thread) : inLoop t ≤ holder t := by
+  obtain ⟨prog, pc, held, child⟩ := t
+  cases pc <;> simp [holder, inLoop]
+
+theorem closeP_zero_of_inLoop (t : Thread) (h : inLoop t = 0) : closeP t = 0 := by
+  obtain ⟨prog, pc, held, child⟩ := t
+  cases pc <;> simp_all [inLoop, closeP]
+
+theorem inLoop_zero_of_holder (t : Thread) (h : holder t = 0) : inLoop t = 0 := by
+  have := inLoop_le_holder t; omega
+
+theorem closeP_zero_of_holder (t : Thread) (h : holder t = 0) : closeP t = 0 :=
+  closeP_zero_of_inLoop t (inLoop_zero_of_holder t h)
+
+/-- If `t` carries the whole sum of `g`, every measure that vanishes with `g`
+    is carried by `t` alone. -/
+theorem sumN_eq_of_others_zero (f g : Thread → Nat) (hfg : ∀ t, g t = 0 → f t = 0)
+    (l : List Thread) (i : Nat) (t : Thread) (h : l[i]? = some t) (hg : sumN g l ≤ g t) :
+    sumN f l = f t := by
+  induction l generalizing i with
+  | nil => simp at h
+  | cons a l ih =>
+    cases i with
+    | zero =>
+      simp at h; subst h
+      simp at hg
+      have := sumN_zero_of f g hfg l (by omega)
+      simp; omega
+    | succ i =>
+      simp at h
+      have e := sumN_elem_le g l i t h
+      simp at hg
+      have ha : g a = 0 := by omega
+      have := hfg a ha
+      have := ih i h (by omega)
+      simp; omega
 
 /-! ## Resource occurrences (for "no resource is issued twice") -/
 
@@ -213,64 +287,59 @@ macro_rules
   | `(tactic| step_auto $h:ident) => `(tactic| (
       all_goals (repeat' split at $h:ident)
       all_goals (first | cases $h:ident | skip)
-      all_goals (simp_all [tok, pcTok, growP, closeP, closer, sweepF, inUseW, avW, A, AllowedT])
+      all_goals (simp_all [tok, pcTok, growP, closeP, holder, inLoop, zeroing, sweepF, tickF, lockW, inUseW, avW, A, b2n])
       all_goals (try omega)))
 
-/-- The slot balance `len(chan) + held + pending grow - capacity - pending close` is unchanged. -/
+/-- The slot balance `len(chan) + held + pending grow - capacity - pending shrink` is unchanged. -/
 theorem step_eq (p : Pool) (t : Thread) (a : Alt) (r : Res)
     (h : stepThread p t a = some r)
-    (hA : A p.maxCap t) (hall : AllowedT p t)
-    (hcl : p.closed = true → tok t = 0 ∧ growP t = 0 ∧ closer t = 0 ∧ sweepF t = 0)
-    (hroom : p.chan.length + tok t ≤ p.maxCap) :
+    (hA : A p.maxCap t)
+    (hcl : p.closed = true → tok t = 0 ∧ growP t = 0 ∧ inLoop t = 0)
+    (hroom : p.chan.length + tok t + growP t ≤ p.maxCap) :
     (r.pool.chan.length : Int) + tok r.thr + growP r.thr - r.pool.capacity - closeP r.thr
       = p.chan.length + tok t + growP t - p.capacity - closeP t := by
   obtain ⟨prog, pc, held, child⟩ := t
   cases pc <;> simp only [stepThread, startOp, sweepEnd, scaleEntry, scaleTail, gotWrapper, afterScale] at h
   step_auto h
 
-/-- Capacity stays within bounds; at most one closing ScaleCapacity; the channel
-    is closed only by it, at capacity 0. -/
-theorem step_cap (p : Pool) (t : Thread) (a : Alt) (r : Res) (S : Nat)
+/-- The capacity counter: stays within bounds together with the pending
+    shrink of the stepping thread, is only changed by the holder of the
+    semaphore, stays 0 once it is 0; the channel is closed only at capacity 0. -/
+theorem step_cap (p : Pool) (t : Thread) (a : Alt) (r : Res)
     (h : stepThread p t a = some r)
-    (hA : A p.maxCap t) (hall : AllowedT p t)
-    (hcl : p.closed = true → tok t = 0 ∧ growP t = 0 ∧ closer t = 0 ∧ sweepF t = 0)
+    (hA : A p.maxCap t)
+    (hcl : p.closed = true → tok t = 0 ∧ growP t = 0 ∧ inLoop t = 0)
     (hcap : 0 ≤ p.capacity) (hcc : p.closed = true → p.capacity = 0)
-    (hc0 : closer t = 1 → p.capacity = 0)
-    (hS : p.capacity ≠ 0 → S = 0) (hJ2 : p.capacity + S ≤ p.maxCap) (hle : closeP t ≤ S) :
+    (hz : zeroing t → p.capacity = 0)
+    (hb : p.capacity + closeP t ≤ p.maxCap) :
     0 ≤ r.pool.capacity
-    ∧ r.pool.capacity + (S + closeP r.thr : Nat) ≤ p.maxCap + (closeP t : Nat)
-    ∧ (r.pool.capacity ≠ 0 → closer r.thr = 0 ∧ p.capacity ≠ 0)
-    ∧ (closer r.thr ≤ closer t ∨ (p.capacity ≠ 0 ∧ closer r.thr ≤ 1))
-    ∧ (r.pool.closed = true → r.pool.capacity = 0 ∧ closer r.thr = 0 ∧ (p.closed = true ∨ closer t = 1)) := by
+    ∧ r.pool.capacity + closeP r.thr ≤ p.maxCap
+    ∧ (holder t = 0 → r.pool.capacity = p.capacity ∧ closeP r.thr = 0)
+    ∧ (p.capacity = 0 → r.pool.capacity = 0)
+    ∧ (zeroing r.thr → r.pool.capacity = 0)
+    ∧ (r.pool.closed = true → r.pool.capacity = 0 ∧ inLoop r.thr = 0 ∧ (p.closed = true ∨ inLoop t = 1)) := by
   obtain ⟨prog, pc, held, child⟩ := t
   cases pc <;> simp only [stepThread, startOp, sweepEnd, scaleEntry, scaleTail, gotWrapper, afterScale] at h
   step_auto h
   all_goals (try (rcases hpc : p.closed with _ | _ <;> simp_all <;> omega))
 
-/-- Timer bookkeeping: capacity 0 only with the idle timer stopped, a stopped
-    timer has no sweep in progress, `idleBusy` counts the sweeping threads. -/
-theorem step_timer (p : Pool) (t : Thread) (a : Alt) (r : Res)
+/-- The `scaling` semaphore is taken exactly while a thread holds it. -/
+theorem step_holder (p : Pool) (t : Thread) (a : Alt) (r : Res)
     (h : stepThread p t a = some r)
-    (hA : A p.maxCap t) (hall : AllowedT p t)
-    (hcl : p.closed = true → tok t = 0 ∧ growP t = 0 ∧ closer t = 0 ∧ sweepF t = 0)
-    (hcap : 0 ≤ p.capacity)
-    (h7 : p.capacity = 0 → p.idleOn = false) (h8 : p.idleOn = false → p.idleBusy = 0)
-    (h9 : sweepF t ≤ p.idleBusy) :
-    (r.pool.capacity = 0 → r.pool.idleOn = false)
-    ∧ (r.pool.idleOn = false → r.pool.idleBusy = 0)
-    ∧ sweepF r.thr + p.idleBusy = sweepF t + r.pool.idleBusy := by
+    (hh : holder t = 1 → p.scaling = true) :
+    b2n r.pool.scaling + holder t = b2n p.scaling + holder r.thr := by
   obtain ⟨prog, pc, held, child⟩ := t
   cases pc <;> simp only [stepThread, startOp, sweepEnd, scaleEntry, scaleTail, gotWrapper, afterScale] at h
   step_auto h
-  all_goals (try (rcases hpc : p.closed with _ | _ <;> simp_all <;> omega))
+  all_goals (try (rcases hpc : p.scaling with _ | _ <;> simp_all))
 
 /-- Program-counter assertions are preserved; a spawned thread starts with zero measures. -/
 theorem step_A (p : Pool) (t : Thread) (a : Alt) (r : Res)
     (h : stepThread p t a = some r)
-    (hA : A p.maxCap t) (hall : AllowedT p t) (hcap : 0 ≤ p.capacity) :
+    (hA : A p.maxCap t) (hcap : 0 ≤ p.capacity) :
     A r.pool.maxCap r.thr ∧ r.pool.maxCap = p.maxCap
-    ∧ (∀ c, r.spawn = some c → tok c = 0 ∧ growP c = 0 ∧ closeP c = 0 ∧ closer c = 0 ∧ sweepF c = 0
-        ∧ inUseW c = 0 ∧ avW c = 0 ∧ A p.maxCap c ∧ c.pc ≠ .dead) := by
+    ∧ (∀ c, r.spawn = some c → tok c = 0 ∧ growP c = 0 ∧ closeP c = 0 ∧ holder c = 0 ∧ inLoop c = 0
+        ∧ inUseW c = 0 ∧ avW c = 0 ∧ A p.maxCap c ∧ c.pc ≠ .dead ∧ ¬ zeroing c) := by
   obtain ⟨prog, pc, held, child⟩ := t
   cases pc <;> simp only [stepThread, startOp, sweepEnd, scaleEntry, scaleTail, gotWrapper, afterScale] at h
   step_auto h
@@ -278,8 +347,8 @@ theorem step_A (p : Pool) (t : Thread) (a : Alt) (r : Res)
 /-- The `inUse` and `available` counters follow the threads; no thread panics. -/
 theorem step_counters (p : Pool) (t : Thread) (a : Alt) (r : Res)
     (h : stepThread p t a = some r)
-    (hcl : p.closed = true → tok t = 0 ∧ growP t = 0 ∧ closer t = 0 ∧ sweepF t = 0)
-    (hroom : p.chan.length + tok t ≤ p.maxCap) (hA : A p.maxCap t) :
+    (hcl : p.closed = true → tok t = 0 ∧ growP t = 0 ∧ inLoop t = 0)
+    (hroom : p.chan.length + tok t + growP t ≤ p.maxCap) (hA : A p.maxCap t) :
     r.pool.inUse - inUseW r.thr = p.inUse - inUseW t
     ∧ r.pool.available - r.pool.chan.length - avW r.thr = p.available - p.chan.length - avW t
     ∧ r.thr.pc ≠ .dead := by
@@ -325,39 +394,174 @@ def basicOp : Op → Bool
   | .get _ | .put | .drop | .sweep | .close | .age => true
   | _ => false
 
-/-- Program counters of Close after its timers were stopped. -/
-def inClose : Pc → Bool
-  | .clCap | .sLoad _ | .sCas _ _ | .sShrRecv _ _ _ | .sShrAct _ _ _ | .sShrAvail _ _ _
-  | .sGrowSend _ _ _ | .sGrowAvail _ _ _ | .sClose => true
-  | _ => false
+/-! ## Locks, timers and progress -/
 
-/-- A thread of the fragment: only basic operations left, not the scale-in
-    goroutine, and any ScaleCapacity in progress is the `ScaleCapacity(0)` of Close. -/
-def BasicT (t : Thread) : Prop :=
-  t.prog.all basicOp = true ∧ t.child = false ∧
+/-- `rp.lock` is held exactly while a thread is in a locked section; `idleBusy` /
+    `capBusy` count the running timer callbacks. -/
+theorem step_locks (p : Pool) (t : Thread) (a : Alt) (r : Res)
+    (h : stepThread p t a = some r)
+    (hcl : p.closed = true → tok t = 0 ∧ growP t = 0 ∧ inLoop t = 0)
+    (hroom : p.chan.length + tok t + growP t ≤ p.maxCap)
+    (hl : lockW t = 1 → p.lock = true)
+    (h9 : sweepF t ≤ p.idleBusy) (h10 : tickF t ≤ p.capBusy) :
+    b2n r.pool.lock + lockW t = b2n p.lock + lockW r.thr
+    ∧ sweepF r.thr + p.idleBusy = sweepF t + r.pool.idleBusy
+    ∧ tickF r.thr + p.capBusy = tickF t + r.pool.capBusy
+    ∧ (∀ c, r.spawn = some c → lockW c = 0 ∧ sweepF c = 0 ∧ tickF c = 0) := by
+  obtain ⟨prog, pc, held, child⟩ := t
+  cases pc <;> simp only [stepThread, startOp, sweepEnd, scaleEntry, scaleTail, gotWrapper, afterScale] at h
+  step_auto h
+  all_goals (try (rcases hpc : p.lock with _ | _ <;> simp_all <;> omega))
+
+/-- The compare-and-swap of the holder of the semaphore sees the value it loaded. -/
+def casOk (p : Pool) (t : Thread) : Prop :=
   match t.pc with
-  | .scLoad _ | .scCas _ _ | .tLock | .tCap | .tTodo | .tUnlock | .kLoad | .kDone => False
-  | .sLoad c | .sCas c _ | .sShrRecv c _ _ | .sShrAct c _ _ | .sShrAvail c _ _
-  | .sGrowSend c _ _ | .sGrowAvail c _ _ => c = 0
+  | .soAdd _ c => p.capacity = c
+  | .sCas _ old => p.capacity = old
   | _ => True
 
-theorem step_basic (p : Pool) (t : Thread) (a : Alt) (r : Res)
-    (h : stepThread p t a = some r) (hB : BasicT t) (hc : inClose t.pc = true → p.idleOn = false) :
-    BasicT r.thr ∧ (inClose r.thr.pc = true → r.pool.idleOn = false) ∧ r.spawn = none
-    ∧ (p.idleOn = false → r.pool.idleOn = false) := by
+theorem casOk_of_not_holder (p : Pool) (t : Thread) (h : holder t = 0) : casOk p t := by
+  obtain ⟨prog, pc, held, child⟩ := t
+  cases pc <;> simp_all [holder, casOk]
+
+theorem step_casOk (p : Pool) (t : Thread) (a : Alt) (r : Res)
+    (h : stepThread p t a = some r) :
+    casOk r.pool r.thr ∧ (∀ c, r.spawn = some c → holder c = 0) := by
   obtain ⟨prog, pc, held, child⟩ := t
   cases pc <;> simp only [stepThread, startOp, sweepEnd, scaleEntry, scaleTail, gotWrapper, afterScale] at h
   all_goals (repeat' split at h)
   all_goals (first | cases h | skip)
-  all_goals (simp_all [BasicT, inClose, basicOp])
+  all_goals (simp_all [casOk, holder])
 
-theorem basic_allowed (p : Pool) (t : Thread) (hB : BasicT t) (hc : inClose t.pc = true → p.idleOn = false) :
-    AllowedT p t := by
-  intro c old hpc _ _
+/-- Why a thread cannot move. -/
+inductive Blocked (p : Pool) (t : Thread) : Prop where
+  | finished : t.pc = .idle → t.prog = [] → Blocked p t
+  | dead : t.pc = .dead → Blocked p t
+  | onLock : lockW t = 0 → p.lock = true → (t.pc = .tLock ∨ ∃ f, t.pc = .soLock f) → Blocked p t
+  | onScaling : holder t = 0 → p.scaling = true → (∃ c, t.pc = .sLock c) → Blocked p t
+  | getWait : p.chan = [] → p.closed = false → (∃ f, t.pc = .gWait f) → Blocked p t
+  | shrinkWait : p.chan = [] → p.closed = false → (∃ c old i, t.pc = .sShrRecv c old i) → Blocked p t
+  | full : p.maxCap ≤ p.chan.length → (1 ≤ tok t ∨ ∃ c old i, t.pc = .sGrowSend c old i) → Blocked p t
+  | idleTimer : p.idleBusy ≠ 0 → t.pc = .clIdle → Blocked p t
+  | capTimer : p.capBusy ≠ 0 → t.pc = .clCap → Blocked p t
+
+theorem blocked_cases (p : Pool) (t : Thread) (a : Alt) (h : stepThread p t a = none) : Blocked p t := by
   obtain ⟨prog, pc, held, child⟩ := t
-  simp at hpc
-  subst hpc
-  simp_all [BasicT, inClose]
+  cases pc <;> simp only [stepThread, startOp, sweepEnd, scaleEntry, scaleTail, gotWrapper, afterScale] at h
+  case idle =>
+    cases prog with
+    | nil => exact .finished rfl rfl
+    | cons op rest =>
+      exfalso
+      cases op <;> simp at h <;> (repeat' split at h) <;> simp_all
+  case dead => exact .dead rfl
+  case soLock f => exact .onLock (by simp [lockW]) (by simp_all) (Or.inr ⟨f, rfl⟩)
+  case tLock => exact .onLock (by simp [lockW]) (by simp_all) (Or.inl rfl)
+  case sLock c => exact .onScaling (by simp [holder]) (by simp_all) ⟨c, rfl⟩
+  case gWait f =>
+    cases hch : p.chan with
+    | nil => simp [hch] at h; split at h <;> simp_all; exact .getWait hch (by simp_all) ⟨f, rfl⟩
+    | cons w rest => simp [hch] at h; split at h <;> simp_all
+  case sShrRecv c old i =>
+    cases hch : p.chan with
+    | nil => simp [hch] at h; exact .shrinkWait hch (by simp_all) ⟨c, old, i, rfl⟩
+    | cons w rest => cases w <;> simp [hch] at h
+  case gFailSend => exact .full (by (repeat' split at h) <;> simp_all <;> omega) (Or.inl (by simp [tok, pcTok]))
+  case cSend n i w => exact .full (by (repeat' split at h) <;> simp_all <;> omega) (Or.inl (by simp [tok, pcTok]))
+  case sGrowSend c old i =>
+    exact .full (by (repeat' split at h) <;> simp_all <;> omega) (Or.inr ⟨c, old, i, rfl⟩)
+  case clIdle => exact .idleTimer (by simp_all) rfl
+  case clCap => exact .capTimer (by simp_all) rfl
+  all_goals (exfalso; (repeat' split at h) <;> simp_all)
+
+/-- Inside a section locked by `rp.lock` every step is enabled. -/
+theorem lock_section_enabled (p : Pool) (t : Thread) (a : Alt) (h : lockW t = 1) :
+    (stepThread p t a).isSome = true := by
+  obtain ⟨prog, pc, held, child⟩ := t
+  cases pc <;> simp [lockW] at h <;> simp only [stepThread] <;> (repeat' split) <;> simp
+
+/-- The holder of the semaphore can always move, except when a shrinking
+    ScaleCapacity waits for a slot of the empty channel (or a send finds the channel full). -/
+theorem holder_enabled (p : Pool) (t : Thread) (a : Alt) (h : holder t = 1) :
+    (stepThread p t a).isSome = true
+    ∨ (p.chan = [] ∧ p.closed = false ∧ ∃ c old i, t.pc = .sShrRecv c old i)
+    ∨ (p.maxCap ≤ p.chan.length ∧ ∃ c old i, t.pc = .sGrowSend c old i) := by
+  obtain ⟨prog, pc, held, child⟩ := t
+  cases pc <;> simp [holder] at h <;> simp only [stepThread, scaleTail, afterScale]
+  case sShrRecv c old i =>
+    cases hch : p.chan with
+    | nil => cases hcl : p.closed <;> simp
+    | cons w rest => cases w <;> simp
+  case sGrowSend c old i =>
+    by_cases hcl : p.closed = true
+    · simp [hcl]
+    · by_cases hlen : p.chan.length < p.maxCap
+      · simp [hcl, hlen]
+      · right; right; exact ⟨by omega, c, old, i, rfl⟩
+  all_goals (left; (repeat' split) <;> simp)
+
+/-- A running idle sweep can always move unless its send finds the channel full. -/
+theorem sweep_enabled (p : Pool) (t : Thread) (a : Alt) (h : sweepF t = 1) (hroom : p.chan.length + tok t ≤ p.maxCap) :
+    (stepThread p t a).isSome = true := by
+  obtain ⟨prog, pc, held, child⟩ := t
+  cases pc <;> simp [sweepF] at h <;> simp only [stepThread, sweepEnd]
+  case cSend n i w =>
+    simp [tok, pcTok] at hroom
+    have : p.chan.length < p.maxCap := by omega
+    (repeat' split) <;> simp_all
+  all_goals ((repeat' split) <;> simp)
+
+/-- A running scale-in tick can always move unless it waits for `rp.lock`. -/
+theorem tick_enabled (p : Pool) (t : Thread) (a : Alt) (h : tickF t = 1) (hl : p.lock = false) :
+    (stepThread p t a).isSome = true := by
+  obtain ⟨prog, pc, held, child⟩ := t
+  cases pc <;> simp [tickF] at h <;> simp only [stepThread] <;> (repeat' split) <;> simp_all
+
+/-- Steps the holder of the semaphore still has to take before it releases
+    it (the capacity counter only changes by its own steps). -/
+def rank (p : Pool) (t : Thread) : Nat :=
+  match t.pc with
+  | .soCap2 _ => 4 | .soAdd _ _ => 3 | .soAvail _ => 2 | .soRelease _ _ => 1
+  | .sLoad c => 3 * (p.capacity - c).toNat + 2 * (c - p.capacity).toNat + 4
+  | .sCas c old => 3 * (old - c).toNat + 2 * (c - old).toNat + 3
+  | .sShrRecv c old i => 3 * (old - c - i).toNat + 2
+  | .sShrAct c old i => 3 * (old - c - i - 1).toNat + 4
+  | .sShrAvail c old i => 3 * (old - c - i - 1).toNat + 3
+  | .sGrowSend c old i => 2 * (c - old - i).toNat + 2
+  | .sGrowAvail c old i => 2 * (c - old - i - 1).toNat + 3
+  | .sClose => 2 | .sUnlock => 1
+  | _ => 0
+
+/-- Every step of the holder brings the release of the semaphore nearer. -/
+theorem step_rank (p : Pool) (t : Thread) (a : Alt) (r : Res)
+    (h : stepThread p t a = some r) (hh : holder t = 1)
+    (hA : A p.maxCap t) (hc : casOk p t) :
+    holder r.thr = 0 ∨ rank r.pool r.thr < rank p t := by
+  obtain ⟨prog, pc, held, child⟩ := t
+  cases pc <;> simp [holder] at hh <;>
+    simp only [stepThread, scaleTail, afterScale] at h
+  all_goals (repeat' split at h)
+  all_goals (first | cases h | skip)
+  all_goals (simp_all [holder, rank, A, casOk])
+  all_goals (try omega)
+
+/-- The same for `rp.lock`: steps left before the unlock. -/
+def lockRank (t : Thread) : Nat :=
+  match t.pc with
+  | .soCap _ => 7 | .soTry _ => 6 | .soCap2 _ => 5 | .soAdd _ _ => 4 | .soAvail _ => 3
+  | .soRelease _ _ => 2 | .soUnlock _ _ _ => 1
+  | .tCap => 3 | .tTodo => 2 | .tUnlock => 1
+  | _ => 0
+
+theorem step_lockRank (p : Pool) (t : Thread) (a : Alt) (r : Res)
+    (h : stepThread p t a = some r) (hh : lockW t = 1) (hc : casOk p t) :
+    lockRank r.thr < lockRank t ∧ (lockW r.thr = 0 ↔ lockRank r.thr = 0) := by
+  obtain ⟨prog, pc, held, child⟩ := t
+  cases pc <;> simp [lockW] at hh <;>
+    simp only [stepThread] at h
+  all_goals (repeat' split at h)
+  all_goals (first | cases h | skip)
+  all_goals (simp_all [lockW, lockRank, casOk])
 
 /-! ## Sums after a step of the whole system -/
 
@@ -399,5 +603,41 @@ theorem mem_step {l l' : List Thread} {i : Nat} {x t' : Thread} {sp : Option Thr
       · exact Or.inl h
       · exact Or.inr (Or.inl h)
     · exact Or.inr (Or.inr (by rw [h]))
+
+theorem mem_step_idx {l l' : List Thread} {i : Nat} {x t' : Thread} {sp : Option Thread}
+    (hl' : l' = match sp with | some c => l.set i x ++ [c] | none => l.set i x) (h : t' ∈ l') :
+    (∃ j, j ≠ i ∧ l[j]? = some t') ∨ t' = x ∨ sp = some t' := by
+  have key : t' ∈ l.set i x → (∃ j, j ≠ i ∧ l[j]? = some t') ∨ t' = x := by
+    intro hm
+    obtain ⟨j, hj⟩ := List.mem_iff_getElem?.mp hm
+    rw [List.getElem?_set] at hj
+    by_cases hij : i = j
+    · simp [hij] at hj
+      right; exact hj.2.symm
+    · simp [hij] at hj
+      left; exact ⟨j, fun e => hij e.symm, hj⟩
+  subst hl'
+  cases sp with
+  | none =>
+    rcases key h with h | h
+    · exact Or.inl h
+    · exact Or.inr (Or.inl h)
+  | some c =>
+    simp at h
+    rcases h with h | h
+    · rcases key h with h | h
+      · exact Or.inl h
+      · exact Or.inr (Or.inl h)
+    · exact Or.inr (Or.inr (by rw [h]))
+
+theorem sumN_pos_exists (f : Thread → Nat) (l : List Thread) (h : 0 < sumN f l) : ∃ t ∈ l, 0 < f t := by
+  induction l with
+  | nil => simp at h
+  | cons a l ih =>
+    simp at h
+    by_cases ha : 0 < f a
+    · exact ⟨a, by simp, ha⟩
+    · obtain ⟨t, ht, hf⟩ := ih (by omega)
+      exact ⟨t, by simp [ht], hf⟩
 
 end GaeaVerif.C24
